@@ -7,6 +7,7 @@ use crate::runner::*;
 use proptest::prelude::*;
 use refmodel::elab::*;
 use refmodel::ir::*;
+use refmodel::tensor::numel;
 use serde::{Deserialize, Serialize};
 use serde_json::{json, Value};
 
@@ -300,6 +301,43 @@ pub fn campaigns(ctx: &Ctx) -> Stats {
         let cfg = base_cfg(exact, t);
         let strat = move || (recipe_strategy(len), prop::collection::vec(any::<u8>(), 1..64)).boxed();
         st.merge(ctx.run_prop(name, total / 2, strat, move |(prog, choices)| Some(Case12 { base: elaborate(&cfg, prog), choices: choices.clone() })));
+    }
+    // several operations of the same geometry on different short-lived arrays: the variant drops each array at its last
+    // use, so the next one may be allocated where the previous one lived (anything keyed by an address shows here)
+    {
+        let strat = move || (any::<u64>(), prop::collection::vec(any::<u8>(), 8..64)).boxed();
+        st.merge(ctx.run_prop("same-geometry-on-short-lived-arrays", t.pick(3000, 40000), strat, move |(z, choices)| {
+            use OpKind::*;
+            let z = *z;
+            let kind = z % 4;
+            let reps = 3 + (z >> 8) as usize % 4;
+            let mut steps: Vec<Step> = vec![];
+            // slot 0: the shared second operand (filters / matrix / addend), tracked
+            let (xd, sd, op): (Vec<usize>, Vec<usize>, OpKind) = match kind {
+                0 => (vec![1, 4, 4], vec![2, 1, 2, 2], Conv { sr: 1, sc: 1 }),
+                1 => (vec![2, 1, 3, 5], vec![1, 1, 2, 3], Conv { sr: 1, sc: 2 }),
+                2 => (vec![3, 4], vec![4, 2], Matmul { ta: false, tb: false, has_c: false }),
+                _ => (vec![2, 3], vec![3], Mul),
+            };
+            let n = numel(&xd);
+            steps.push(Step::Leaf { dims: sd.clone(), vals: refmodel::vals::gen_vals(z ^ 1, numel(&sd), refmodel::vals::VKind::Int), tracked: true });
+            let mut results = vec![];
+            for r in 0..reps {
+                let leaf = steps.iter().filter(|s| matches!(s, Step::Leaf { .. } | Step::Apply(_))).count();
+                steps.push(Step::Leaf { dims: xd.clone(), vals: refmodel::vals::gen_vals(z ^ (r as u64 * 77 + 5), n, refmodel::vals::VKind::Int), tracked: false });
+                steps.push(Step::Apply(ApplySpec { op: op.clone(), args: vec![leaf, 0] }));
+                results.push(leaf + 1);
+            }
+            // sum the results pairwise and differentiate
+            let mut acc = results[0];
+            for &r in &results[1..] {
+                let next = steps.iter().filter(|s| matches!(s, Step::Leaf { .. } | Step::Apply(_))).count();
+                steps.push(Step::Apply(ApplySpec { op: Add, args: vec![acc, r] }));
+                acc = next;
+            }
+            steps.push(Step::Backward { h: acc, seed: None });
+            Some(Case12 { base: History { steps }, choices: choices.clone() })
+        }));
     }
     for (name, p) in [("programs-with-large-dimensions", Profile::LargeDims), ("programs-with-wide-magnitudes", Profile::WideMagnitudes)] {
         let cfg = base_cfg(false, t).with_profile(p, t == Tier::Thorough, crate::exec::IS_F32);
